@@ -58,6 +58,29 @@ CLAIMS.update({
     ref="DESIGN.md §5 C10"),
 })
 
+CLAIMS.update({
+ "C03": dict(
+    text="Coq theorems for all inputs: a send creates exactly one delivery per accepting connection with the mapped value (c03_deliveries_of_send); a delivery appends exactly that message to exactly the target mailbox, only when there is room (c03_delivery_enqueues_once); the owner consumes exactly the head of its mailbox (c03_start_consumes_once); the sender does not move on before all deliveries are made (c03_send_completes_before_next_op); in-flight counter = number of queued messages in every reachable state and Ok iff all mailboxes are empty (c03_conservation, c03_ok_means_all_consumed). Tie: bursts of 1..3x capacity into mailboxes of capacity 1..16 through plain/map/filter_map connections, sources, queries; multiset comparison with Sim.v on 1..16 threads + closure oracle (processed = sent per accepting connection) on the implementation.",
+    note=SIMNOTE + "Partial: the trace-level multiset equality is not one Coq theorem (no ghost sent/processed sets in the model); it is decided on the implementation by the oracle.",
+    technique="Coq proof (per-step lemmas + counting invariant) + differential bench correspondence + closure oracle",
+    ref="DESIGN.md §5 C03"),
+ "C04": dict(
+    text="Coq theorems: Ok iff every mailbox is empty (all sent messages consumed); in a quiescent failure-free state with empty mailboxes no task is in the middle of a send (c04_no_half_done_send, all benches with capacities >= 1); a run changes neither time nor termination nor clock position (c04_run_frame); computed schedule-independence instances. Tie: every bench on the single-threaded executor and on 2,3,4,8,16 workers must equal the model's per-command multiset of handler invocations, results, times, sink contents; oracle 'Ok => everything sent was processed'.",
+    note=SIMNOTE + "Partial: no model of the work-stealing/parking protocol (Pool.v of the design was not built): 'neither returns early nor blocks forever' rests on real multi-threaded runs only; confluence proved only as instances; a task waiting for a query reply at quiescence is excluded by correspondence, not by a theorem.",
+    technique="Coq proof (quiescence lemma + frame) + cross-executor differential execution (1..16 threads)",
+    ref="DESIGN.md §5 C04"),
+ "C06": dict(
+    text="Coq theorems: the in-flight counter equals the total number of queued messages over all mailboxes in every reachable state (c06_count_exact_step/run); the verdict is Ok iff all mailboxes are empty, Deadlock l iff l is the non-empty list of observed mailboxes, MessageLoss n iff no observed mailbox holds a message and n is the total (c06_report); observed = exactly the added models, sub-models included, with non-empty mailbox, by qualified name and exact length (c06_observed); refutation witness of the pinned tree (F2) and post-fix example. Tie: deterministic deadlocks (query loop-backs incl. sub-models, self-saturation), orphan mailboxes, hierarchies; exact verdict comparison + accounting oracle.",
+    note=SIMNOTE + "The multi-threaded idle window and the folding of per-thread counters are exercised on 2..16 threads, not modelled. Known defect F2 fixed (commit in known_findings.json).",
+    technique="Coq proof (counting invariant + characterisation of classify) + differential bench correspondence + accounting oracle",
+    ref="DESIGN.md §5 C06"),
+ "C16": dict(
+    text="Coq theorems: the first start of a model task is its init (logs EInit, installs the init script, leaves queued messages in place), a start logs an init iff the task was not yet initialised and a handler entry only on an initialised task, no other step logs an init or handler entry (c16_*); computed instance with sub-model names and an early message under all start orders. Tie: hierarchies of depth 0..3 with init scripts sending events/queries to other models, 1..16 threads; oracle: one init per added model inside SimInit::init before any of its handlers; Context::name() = parent.child; names in error reports via C11/C06 benches.",
+    note=SIMNOTE + "Partial: 'exactly once' over whole traces is decided by the oracle and correspondence; the theorems are step-level.",
+    technique="Coq proof (step-level lemmas) + differential bench correspondence + init oracle",
+    ref="DESIGN.md §5 C16"),
+})
+
 PENDING_REASON = "check not built yet in this snapshot (planned per DESIGN.md section 5/8); not claimed until its check exists"
 
 def main():
